@@ -26,7 +26,7 @@ EXHAUSTIVE_PART = "every stream on 2 columns x 3 rows (quick) / 2 x 4 rows and 3
 ASSUMPTIONS = ["vmon/ref/grouping.py classifies orphans as documented"]
 MONITORS = ["roundtrip", "inside_hold"]
 REQUIRED = ["keysounded_head_joined", "dropped_orphans", "note_inside_hold", "corpus_chart",
-            "tail_same_beat_between_row_notes", "by_type_two_heads_one_orphan"]
+            "tail_same_beat_between_row_notes", "by_type_two_heads_one_orphan", "note_inside_hold_in_a_multi_note_row"]
 
 
 def anchors():
@@ -78,8 +78,10 @@ def gen_inside(rng):
     b = 0
     holds = {}
     for _ in range(rng.randint(2, 12)):
-        b += rng.randint(1, 3)
+        b += rng.randint(0, 3) if items else 1   # several items may share a beat (a multi-note row)
         c = rng.randrange(cols)
+        if any(it[0] == b and it[1] == c for it in items):
+            continue
         if c not in holds or holds[c] < b:
             if rng.random() < 0.5:
                 tb = b + rng.randint(1, 6)
@@ -90,7 +92,8 @@ def gen_inside(rng):
         elif holds[c] > b:
             # strictly inside the joined hold on this column
             items.append([b, c, "N", rng.choice("1M24L"), None, None])
-    shape = rng.choice(["separate", "by_beat"])
+    items.sort(key=lambda it: (it[0], it[1]))
+    shape = rng.choice(["separate", "by_beat", "by_beat"])
     return {"kind": "inside", "items": items, "shape": shape}
 
 
@@ -273,6 +276,8 @@ def inside(ctx, case):
                           {"policy": pol, "want": repr(want)[:500], "got": repr(got)[:500]})
     if any_inside:
         ctx.feat("note_inside_hold")
+        if case["shape"] == "by_beat" and any(len(g) > 1 for g in grouped):
+            ctx.feat("note_inside_hold_in_a_multi_note_row")
 
 
 def _drop_ambiguous(items):
